@@ -1,4 +1,5 @@
 import Mochi.Model.Broker
+import Mochi.Lemmas.Hooks
 /-!
 # C19 — Hook chain results are honoured consistently
 
@@ -7,6 +8,10 @@ the "ignore" gates of `retainMsg` and `publishToSubscribers`.
 Known finding F19 (recorded): an `OnPublish` error that is neither reject nor ignore is honoured only
 for MQTT 5 with QoS > 0 — otherwise the publish falls through (theorem `C19_err_v5`, counterexample
 `C19_err_v3_counterexample`).
+
+Second part (namespace `Mochi.Hooks`, model `Model/Hooks.lean`): the dispatcher `Hooks` of hooks.go itself — for EVERY
+list of hooks (a hook is any record of functions): which hooks a dispatcher consults and in which order, what
+each receives, when the loop returns early and what the dispatcher returns.
 -/
 namespace Mochi.Broker
 open Mochi.Topics
@@ -27,3 +32,562 @@ theorem C19_retain_unavailable (s : Server) (pk : Msg) (h : s.caps.retainAvailab
 example : (publishToSubscribers (init {}) { topic := [97], ignore := true }).2.length = 0 := by decide
 
 end Mochi.Broker
+
+/-! # The dispatcher (`type Hooks`, hooks.go)
+
+Observables of one dispatcher call: the returned value (`.1`) and the trace of hook calls (`.2`): index of the
+hook in registration order, method, arguments, result.  `providers m hs` are the indices of the hooks whose
+`Provides(m)` is true.  All statements are for every hook list `hs` and every argument.
+-/
+namespace Mochi.Hooks
+
+/-! ## Registration order -/
+
+/-- `providers m hs` lists, in increasing (= registration) order, exactly the positions of the hooks that provide `m` -/
+theorem C19_providers (m : Method) (hs : List Hook) :
+    (providers m hs).Pairwise (· < ·) ∧
+    ∀ j, j ∈ providers m hs ↔ ∃ h, hs[j]? = some h ∧ h.provides m = true := by
+  refine ⟨providersFrom_pairwise m hs 0, fun j => ?_⟩
+  simpa [providers] using mem_providersFrom m hs 0 j
+
+/-- `Hooks.Add` appends: registration order is the order of the successful `Add`s; a hook whose `Init` fails
+    is not registered and the error comes back wrapped -/
+theorem C19_add (hs : List Hook) (h : Hook) :
+    (h.initErr = none → add hs h = (hs ++ [h], none)) ∧
+    (∀ e, h.initErr = some e → add hs h = (hs, some (.initWrap e))) := by
+  constructor
+  · intro h0; simp [add, h0]
+  · intro e h0; simp [add, h0]
+
+/-- `Hooks.Provides(b...)`: true iff some registered hook provides some of the requested methods -/
+theorem C19_provides_any (hs : List Hook) (bs : List Method) :
+    providesAny hs bs = true ↔ ∃ h ∈ hs, ∃ b ∈ bs, h.provides b = true := by
+  simp [providesAny, List.any_eq_true]
+
+/-- the model's constants are the `iota` values of hooks.go:19-58 (compared with the real constants by `hk.const`) -/
+example : Method.setOptions.code = 0 ∧ Method.onConnectAuthenticate.code = 4 ∧ Method.onACLCheck.code = 5 ∧
+    Method.onPacketRead.code = 11 ∧ Method.onPublish.code = 20 ∧ Method.onWill.code = 29 ∧
+    Method.storedClients.code = 33 ∧ Method.storedSysInfo.code = 37 ∧ Method.all.length = 38 := by decide
+
+/-- **Notify-all** (the 21 dispatchers without a result): every providing hook is called exactly once, in
+    registration order, with exactly the dispatcher's arguments; no other hook is called -/
+theorem C19_notify_all (m : Method) (a : Arg) (hs : List Hook) :
+    notify m a hs = (providers m hs).map (fun j => ⟨j, m, a, .unit⟩) := by
+  simpa [notify, providers] using notify_trace m a hs 0
+
+/-- the 21 notify-all dispatchers, by name -/
+theorem C19_notify_all_named (hs : List Hook) (pk : Pkt) (e : Option Err) (x : Bool) (b : Bytes) (r n : Nat) :
+    onSysInfoTick hs = notify .onSysInfoTick .unit hs ∧ onStarted hs = notify .onStarted .unit hs ∧
+    onStopped hs = notify .onStopped .unit hs ∧
+    onSessionEstablish hs pk = notify .onSessionEstablish (.pkt pk) hs ∧
+    onSessionEstablished hs pk = notify .onSessionEstablished (.pkt pk) hs ∧
+    onDisconnect hs e x = notify .onDisconnect (.disc e x) hs ∧
+    onPacketProcessed hs pk e = notify .onPacketProcessed (.pktErr pk e) hs ∧
+    onPacketSent hs pk b = notify .onPacketSent (.pktBytes pk b) hs ∧
+    onSubscribed hs pk b = notify .onSubscribed (.pktBytes pk b) hs ∧
+    onUnsubscribed hs pk = notify .onUnsubscribed (.pkt pk) hs ∧
+    onPublished hs pk = notify .onPublished (.pkt pk) hs ∧
+    onPublishDropped hs pk = notify .onPublishDropped (.pkt pk) hs ∧
+    onRetainMessage hs pk r = notify .onRetainMessage (.pktNums pk [r]) hs ∧
+    onRetainPublished hs pk = notify .onRetainPublished (.pkt pk) hs ∧
+    onQosPublish hs pk r n = notify .onQosPublish (.pktNums pk [r, n]) hs ∧
+    onQosComplete hs pk = notify .onQosComplete (.pkt pk) hs ∧
+    onQosDropped hs pk = notify .onQosDropped (.pkt pk) hs ∧
+    onPacketIDExhausted hs pk = notify .onPacketIDExhausted (.pkt pk) hs ∧
+    onWillSent hs pk = notify .onWillSent (.pkt pk) hs ∧
+    onClientExpired hs = notify .onClientExpired .unit hs ∧
+    onRetainedExpired hs b = notify .onRetainedExpired (.str b) hs := by
+  refine ⟨rfl, rfl, rfl, rfl, rfl, rfl, rfl, rfl, rfl, rfl, rfl, rfl, rfl, rfl, rfl, rfl, rfl, rfl, rfl, rfl, rfl⟩
+
+/-- the dispatchers that never return early consult EVERY providing hook, in registration order -/
+theorem C19_order_all_consulted (hs : List Hook) (pk : Pkt) (subs : Bytes) :
+    idxs (onPacketEncode hs pk).2 = providers .onPacketEncode hs ∧
+    idxs (onSubscribe hs pk).2 = providers .onSubscribe hs ∧
+    idxs (onUnsubscribe hs pk).2 = providers .onUnsubscribe hs ∧
+    idxs (onSelectSubscribers hs subs pk).2 = providers .onSelectSubscribers hs ∧
+    idxs (onWill hs pk).2 = providers .onWill hs := by
+  refine ⟨?_, ?_, ?_, ?_, ?_⟩
+  · exact loop_idxs_all _ _ _ (fun h s => ⟨_, rfl⟩) hs 0 pk
+  · exact loop_idxs_all _ _ _ (fun h s => ⟨_, rfl⟩) hs 0 pk
+  · exact loop_idxs_all _ _ _ (fun h s => ⟨_, rfl⟩) hs 0 pk
+  · exact loop_idxs_all _ _ _ (fun h s => ⟨_, rfl⟩) hs 0 subs
+  · refine loop_idxs_all _ _ _ (fun h s => ?_) hs 0 pk
+    simp only [willBody]; split <;> exact ⟨_, rfl⟩
+
+/-- the dispatchers that may return early consult an INITIAL SEGMENT of the providing hooks, in registration
+    order: no hook is skipped, none is consulted twice, none after the one that made the dispatcher return -/
+theorem C19_order_prefix (hs : List Hook) (pk : Pkt) (topic : Bytes) (w : Bool) :
+    idxs (onPacketRead hs pk).2 <+: providers .onPacketRead hs ∧
+    idxs (onAuthPacket hs pk).2 <+: providers .onAuthPacket hs ∧
+    idxs (onPublish hs pk).2 <+: providers .onPublish hs ∧
+    idxs (onConnect hs pk).2 <+: providers .onConnect hs ∧
+    idxs (onConnectAuthenticate hs pk).2 <+: providers .onConnectAuthenticate hs ∧
+    idxs (onACLCheck hs topic w).2 <+: providers .onACLCheck hs ∧
+    idxs (storedClients hs).2 <+: providers .storedClients hs ∧
+    idxs (storedSubscriptions hs).2 <+: providers .storedSubscriptions hs ∧
+    idxs (storedInflightMessages hs).2 <+: providers .storedInflightMessages hs ∧
+    idxs (storedRetainedMessages hs).2 <+: providers .storedRetainedMessages hs ∧
+    idxs (storedSysInfo hs).2 <+: providers .storedSysInfo hs :=
+  ⟨loop_idxs_prefix _ _ _ hs 0 pk, loop_idxs_prefix _ _ _ hs 0 pk, loop_idxs_prefix _ _ _ hs 0 pk,
+   loop_idxs_prefix _ _ _ hs 0 (), loop_idxs_prefix _ _ _ hs 0 (), loop_idxs_prefix _ _ _ hs 0 (),
+   loop_idxs_prefix _ _ _ hs 0 (), loop_idxs_prefix _ _ _ hs 0 (), loop_idxs_prefix _ _ _ hs 0 (),
+   loop_idxs_prefix _ _ _ hs 0 (), loop_idxs_prefix _ _ _ hs 0 ()⟩
+
+/-- every call in a trace is the named method of the hook at that position, which provides it, applied to the
+    recorded arguments, and the recorded result is what that hook returns for them (packet-to-packet chains) -/
+theorem C19_calls_faithful_pure (hs : List Hook) (pk : Pkt) :
+    (∀ c ∈ (onPacketEncode hs pk).2, c.method = .onPacketEncode ∧ ∃ h p, hs[c.idx]? = some h ∧
+      h.provides .onPacketEncode = true ∧ c.input = .pkt p ∧ c.output = .pkt (h.onPacketEncode p)) ∧
+    (∀ c ∈ (onSubscribe hs pk).2, c.method = .onSubscribe ∧ ∃ h p, hs[c.idx]? = some h ∧
+      h.provides .onSubscribe = true ∧ c.input = .pkt p ∧ c.output = .pkt (h.onSubscribe p)) ∧
+    (∀ c ∈ (onUnsubscribe hs pk).2, c.method = .onUnsubscribe ∧ ∃ h p, hs[c.idx]? = some h ∧
+      h.provides .onUnsubscribe = true ∧ c.input = .pkt p ∧ c.output = .pkt (h.onUnsubscribe p)) := by
+  refine ⟨fun c hc => ?_, fun c hc => ?_, fun c hc => ?_⟩ <;>
+  · obtain ⟨hm, _, h, p, hg, hp, hi, ho⟩ := loop_call_sound _ _ _ hs 0 pk c hc
+    exact ⟨hm, h, p, by simpa using hg, hp, hi, ho⟩
+
+/-- … and for the chains whose hooks may also return an error -/
+theorem C19_calls_faithful_err (hs : List Hook) (pk : Pkt) :
+    (∀ c ∈ (onPacketRead hs pk).2, c.method = .onPacketRead ∧ ∃ h p, hs[c.idx]? = some h ∧
+      h.provides .onPacketRead = true ∧ c.input = .pkt p ∧ c.output = .pktErr (h.onPacketRead p).1 (h.onPacketRead p).2) ∧
+    (∀ c ∈ (onAuthPacket hs pk).2, c.method = .onAuthPacket ∧ ∃ h p, hs[c.idx]? = some h ∧
+      h.provides .onAuthPacket = true ∧ c.input = .pkt p ∧ c.output = .pktErr (h.onAuthPacket p).1 (h.onAuthPacket p).2) ∧
+    (∀ c ∈ (onPublish hs pk).2, c.method = .onPublish ∧ ∃ h p, hs[c.idx]? = some h ∧
+      h.provides .onPublish = true ∧ c.input = .pkt p ∧ c.output = .pktErr (h.onPublish p).1 (h.onPublish p).2) ∧
+    (∀ c ∈ (onWill hs pk).2, c.method = .onWill ∧ ∃ h p, hs[c.idx]? = some h ∧
+      h.provides .onWill = true ∧ c.input = .pkt p ∧ c.output = .pktErr (h.onWill p).1 (h.onWill p).2) := by
+  refine ⟨fun c hc => ?_, fun c hc => ?_, fun c hc => ?_, fun c hc => ?_⟩ <;>
+  · obtain ⟨hm, _, h, p, hg, hp, hi, ho⟩ := loop_call_sound _ _ _ hs 0 pk c hc
+    exact ⟨hm, h, p, by simpa using hg, hp, hi, ho⟩
+
+/-! ## Threading: "each packet-modifying hook sees the previous hook's output" -/
+
+/-- **Chains, as the property states them.**  In `OnPacketEncode`, `OnSubscribe`, `OnUnsubscribe`,
+    `OnSelectSubscribers` (the subscriber set; the packet is the same for all), `OnPublish` and `OnAuthPacket`
+    the first consulted hook receives the dispatcher's argument and the i-th consulted hook receives exactly what
+    the (i-1)-th consulted hook returned; the four that cannot fail return what the last consulted hook returned
+    (their argument when no hook provides the method). -/
+theorem C19_order_chain (hs : List Hook) (pk : Pkt) (subs : Bytes) :
+    (Chained nextLiteral (.pkt pk) (onPacketEncode hs pk).2 ∧
+      chainEnd nextLiteral (.pkt pk) (onPacketEncode hs pk).2 = .pkt (onPacketEncode hs pk).1) ∧
+    (Chained nextLiteral (.pkt pk) (onSubscribe hs pk).2 ∧
+      chainEnd nextLiteral (.pkt pk) (onSubscribe hs pk).2 = .pkt (onSubscribe hs pk).1) ∧
+    (Chained nextLiteral (.pkt pk) (onUnsubscribe hs pk).2 ∧
+      chainEnd nextLiteral (.pkt pk) (onUnsubscribe hs pk).2 = .pkt (onUnsubscribe hs pk).1) ∧
+    (Chained nextLiteral (.subs subs pk) (onSelectSubscribers hs subs pk).2 ∧
+      chainEnd nextLiteral (.subs subs pk) (onSelectSubscribers hs subs pk).2 = .subs (onSelectSubscribers hs subs pk).1 pk) ∧
+    Chained nextLiteral (.pkt pk) (onPublish hs pk).2 ∧
+    Chained nextLiteral (.pkt pk) (onAuthPacket hs pk).2 := by
+  have pure : ∀ (m : Method) (f : Hook → Pkt → Pkt),
+      Chained nextLiteral (.pkt pk) (loop m (pureBody f) (fun p => p) 0 pk hs).2 ∧
+      chainEnd nextLiteral (.pkt pk) (loop m (pureBody f) (fun p => p) 0 pk hs).2 =
+        .pkt (loop m (pureBody f) (fun p => p) 0 pk hs).1 := by
+    intro m f
+    have h1 : ∀ (h : Hook) (s : Pkt), (pureBody f h s).input = Arg.pkt s := fun _ _ => rfl
+    have h2 : ∀ (h : Hook) (s s' : Pkt), (pureBody f h s).step = .next s' →
+        Arg.pkt s' = nextLiteral (Arg.pkt s) (pureBody f h s).output := by
+      intro h s s' hst; simp only [pureBody] at hst; cases hst; rfl
+    refine ⟨loop_chained m _ _ Arg.pkt nextLiteral h1 h2 hs 0 pk, ?_⟩
+    obtain ⟨z, hz1, hz2⟩ := loop_chainEnd m (pureBody f) (fun p => p) Arg.pkt nextLiteral h1 h2 (fun h s => ⟨_, rfl⟩) hs 0 pk
+    rw [← hz2, hz1]
+  refine ⟨pure _ _, pure _ _, pure _ _, ?_, ?_, ?_⟩
+  · have h1 : ∀ (h : Hook) (s : Bytes), (selectBody pk h s).input = Arg.subs s pk := fun _ _ => rfl
+    have h2 : ∀ (h : Hook) (s s' : Bytes), (selectBody pk h s).step = .next s' →
+        Arg.subs s' pk = nextLiteral (Arg.subs s pk) (selectBody pk h s).output := by
+      intro h s s' hst; simp only [selectBody] at hst; cases hst; rfl
+    refine ⟨loop_chained _ _ _ (fun s => Arg.subs s pk) nextLiteral h1 h2 hs 0 subs, ?_⟩
+    obtain ⟨z, hz1, hz2⟩ := loop_chainEnd .onSelectSubscribers (selectBody pk) (fun s => s) (fun s => Arg.subs s pk)
+      nextLiteral h1 h2 (fun h s => ⟨_, rfl⟩) hs 0 subs
+    simp only [onSelectSubscribers]
+    rw [← hz2, hz1]
+  · refine loop_chained _ _ _ Arg.pkt nextLiteral (fun _ _ => rfl) ?_ hs 0 pk
+    intro h s s' hst
+    simp only [publishBody] at hst
+    split at hst
+    · split at hst
+      · cases hst
+      · split at hst <;> cases hst
+    · cases hst; rfl
+  · refine loop_chained _ _ _ Arg.pkt nextLiteral (fun _ _ => rfl) ?_ hs 0 pk
+    intro h s s' hst
+    simp only [authBody] at hst
+    split at hst
+    · cases hst
+    · cases hst; rfl
+
+/-- the property's chain clause for `OnPacketRead` and for `OnWill` -/
+def chainLiteralRead (hs : List Hook) (pk : Pkt) : Prop := Chained nextLiteral (.pkt pk) (onPacketRead hs pk).2
+def chainLiteralWill (hs : List Hook) (w : Pkt) : Prop := Chained nextLiteral (.pkt w) (onWill hs w).2
+
+instance (hs : List Hook) (pk : Pkt) : Decidable (chainLiteralRead hs pk) := by unfold chainLiteralRead; infer_instance
+instance (hs : List Hook) (pk : Pkt) : Decidable (chainLiteralWill hs pk) := by unfold chainLiteralWill; infer_instance
+
+/-- a hook that appends `k` to the payload and returns the error `e` with it (for every method with that shape) -/
+def markHook (k : Nat) (e : Option Err) : Hook :=
+  { provides := fun _ => true,
+    onPacketRead := fun p => ({ p with payload := p.payload ++ [k] }, e),
+    onPublish := fun p => ({ p with payload := p.payload ++ [k] }, e),
+    onAuthPacket := fun p => ({ p with payload := p.payload ++ [k] }, e),
+    onWill := fun p => ({ p with payload := p.payload ++ [k] }, e) }
+
+/-- **F19c (counterexample to the literal chain clause, `OnPacketRead`).**  Hook 0 returns a modified packet
+    together with an error that is not `ErrRejectPacket`; hook 1 then does NOT receive hook 0's output: it
+    receives the packet hook 0 received, the error is dropped and the dispatcher reports success.
+    Replayed on the real `mqtt.Hooks` on every run: corpus/C19/f19c-error-output-discarded.ops. -/
+theorem C19_order_chain_read_counterexample :
+    ¬ chainLiteralRead [markHook 65 (some (.other 65)), markHook 66 none] { kind := 3, payload := [1] } := by decide
+
+/-- the same for `OnWill` -/
+theorem C19_order_chain_will_counterexample :
+    ¬ chainLiteralWill [markHook 65 (some (.other 65)), markHook 66 none] { kind := 1, payload := [1] } := by decide
+
+example : (onPacketRead [markHook 65 (some (.other 65)), markHook 66 none] { kind := 3, payload := [1] }).1
+    = ({ kind := 3, payload := [1, 66] }, none) := by decide
+
+/-- **what `OnPacketRead` and `OnWill` do, for every hook list**: the next consulted hook receives the output of
+    the nearest earlier consulted hook that returned NO error (the dispatcher's argument if there is none) -/
+theorem C19_order_chain_accepted (hs : List Hook) (pk : Pkt) :
+    Chained nextAccepted (.pkt pk) (onPacketRead hs pk).2 ∧
+    (Chained nextAccepted (.pkt pk) (onWill hs pk).2 ∧
+      chainEnd nextAccepted (.pkt pk) (onWill hs pk).2 = .pkt (onWill hs pk).1) := by
+  have hw1 : ∀ (h : Hook) (s : Pkt), (willBody h s).input = Arg.pkt s := fun _ _ => rfl
+  have hw2 : ∀ (h : Hook) (s s' : Pkt), (willBody h s).step = .next s' →
+      Arg.pkt s' = nextAccepted (Arg.pkt s) (willBody h s).output := by
+    intro h s s' hst
+    simp only [willBody] at hst ⊢
+    split at hst
+    · rename_i e he; cases hst; rw [he]; rfl
+    · rename_i he; cases hst; rw [he]; rfl
+  refine ⟨?_, loop_chained _ _ _ Arg.pkt nextAccepted hw1 hw2 hs 0 pk, ?_⟩
+  · refine loop_chained _ _ _ Arg.pkt nextAccepted (fun _ _ => rfl) ?_ hs 0 pk
+    intro h s s' hst
+    simp only [readBody] at hst ⊢
+    split at hst
+    · rename_i e he
+      split at hst
+      · cases hst
+      · cases hst; rw [he]; rfl
+    · rename_i he; cases hst; rw [he]; rfl
+  · obtain ⟨z, hz1, hz2⟩ := loop_chainEnd .onWill willBody (fun w => w) Arg.pkt nextAccepted hw1 hw2
+      (fun h s => by simp only [willBody]; split <;> exact ⟨_, rfl⟩) hs 0 pk
+    simp only [onWill]
+    rw [← hz2, hz1]
+
+/-- **`_partial`: the literal clause holds outside F19c's signature** — whenever no consulted hook that is followed
+    by another consulted hook returned an error -/
+theorem C19_order_chain_read_partial (hs : List Hook) (pk : Pkt)
+    (hsig : ∀ c ∈ (onPacketRead hs pk).2.dropLast, c.output.error = none) : chainLiteralRead hs pk := by
+  refine chained_congr nextAccepted nextLiteral _ _ ?_ (C19_order_chain_accepted hs pk).1
+  intro c hc
+  have := hsig c hc
+  cases ho : c.output <;> simp_all [nextAccepted, Out.error]
+
+theorem C19_order_chain_will_partial (hs : List Hook) (w : Pkt)
+    (hsig : ∀ c ∈ (onWill hs w).2.dropLast, c.output.error = none) : chainLiteralWill hs w := by
+  refine chained_congr nextAccepted nextLiteral _ _ ?_ (C19_order_chain_accepted hs w).2.1
+  intro c hc
+  have := hsig c hc
+  cases ho : c.output <;> simp_all [nextAccepted, Out.error]
+
+/-! ## `OnPacketRead`: what it returns; a rejected packet produces no handler step -/
+
+/-- **`OnPacketRead`, the two outcomes.**  (A) no consulted hook returned a reject error: every providing hook was
+    consulted and the result is `(p, nil)` with `p` the end of the accepted chain — errors that are not
+    `ErrRejectPacket` leave no mark on the result.  (B) the LAST consulted hook returned an error `e` that is (wraps)
+    `ErrRejectPacket`: the result is `(pk, e)` with the ORIGINAL packet, later hooks are not consulted. -/
+theorem C19_read_verdict (hs : List Hook) (pk : Pkt) :
+    ((∀ c ∈ (onPacketRead hs pk).2, c.output.rejects = false) ∧
+      idxs (onPacketRead hs pk).2 = providers .onPacketRead hs ∧
+      ∃ p, (onPacketRead hs pk).1 = (p, none) ∧ Arg.pkt p = chainEnd nextAccepted (.pkt pk) (onPacketRead hs pk).2)
+    ∨ (∃ c e, (onPacketRead hs pk).2.getLast? = some c ∧ c.output.error = some e ∧ e.isReject = true ∧
+        (onPacketRead hs pk).1 = (pk, some e) ∧ ∀ c' ∈ (onPacketRead hs pk).2.dropLast, c'.output.rejects = false) := by
+  have hiff : ∀ (h : Hook) (s : Pkt), (readBody pk h s).output.rejects = true ↔ ∃ r, (readBody pk h s).step = .stop r := by
+    intro h s
+    simp only [readBody, Out.rejects, Out.error]
+    cases he : (h.onPacketRead s).2 with
+    | none => simp
+    | some e => cases hr : e.isReject <;> simp [hr]
+  have h2 : ∀ (h : Hook) (s s' : Pkt), (readBody pk h s).step = .next s' →
+      Arg.pkt s' = nextAccepted (Arg.pkt s) (readBody pk h s).output := by
+    intro h s s' hst
+    simp only [readBody] at hst ⊢
+    split at hst
+    · rename_i e he
+      split at hst
+      · cases hst
+      · cases hst; rw [he]; rfl
+    · rename_i he; cases hst; rw [he]; rfl
+  rcases loop_cases .onPacketRead (readBody pk) (fun pkx => (pkx, none)) Out.rejects hiff Arg.pkt nextAccepted
+      (fun _ _ => rfl) h2 hs 0 pk with ⟨hall, hidx, z, hz1, hz2⟩ | ⟨c, h, s', hlast, hstop, _, _, _, _, hco, hstep, hpre⟩
+  · exact Or.inl ⟨hall, hidx, z, hz1, hz2⟩
+  · right
+    simp only [readBody] at hstep hco
+    cases he : (h.onPacketRead s').2 with
+    | none => rw [he] at hstep; cases hstep
+    | some e =>
+      rw [he] at hstep hco
+      cases hr : e.isReject with
+      | false => simp [hr] at hstep
+      | true =>
+        simp [hr] at hstep
+        exact ⟨c, e, hlast, by rw [hco]; rfl, hr, hstep.symm, hpre⟩
+
+/-- the only error `OnPacketRead` ever returns is a reject error, and with it the original packet -/
+theorem C19_read_error_is_reject (hs : List Hook) (pk : Pkt) (e : Err) (h : (onPacketRead hs pk).1.2 = some e) :
+    e.isReject = true ∧ (onPacketRead hs pk).1.1 = pk := by
+  rcases C19_read_verdict hs pk with ⟨_, _, p, hp, _⟩ | ⟨c, e', _, _, hr, hret, _⟩
+  · rw [hp] at h; cases h
+  · rw [hret] at h ⊢; cases h; exact ⟨hr, rfl⟩
+
+/-- if some consulted read hook returns a reject error, the dispatcher returns an error -/
+theorem C19_read_reject_reported (hs : List Hook) (pk : Pkt)
+    (h : ∃ c ∈ (onPacketRead hs pk).2, c.output.rejects = true) : (onPacketRead hs pk).1.2 ≠ none := by
+  rcases C19_read_verdict hs pk with ⟨hall, _, _⟩ | ⟨c, e', _, _, _, hret, _⟩
+  · obtain ⟨c, hc, hr⟩ := h; rw [hall c hc] at hr; cases hr
+  · rw [hret]; simp
+
+/-- **a rejected packet produces no handler step** (`Client.Read` over the decoded packets of a stream): the
+    packets before the first one the read hooks reject are handed to the handler (as the hooks left them); the
+    rejected packet and everything after it are not, and `Read` ends with the reject error -/
+theorem C19_rejected_read (hs : List Hook) (pre : List Pkt) (pk : Pkt) (post : List Pkt) (e : Err)
+    (hpre : ∀ q ∈ pre, (onPacketRead hs q).1.2 = none) (hrej : (onPacketRead hs pk).1.2 = some e) :
+    (readLoop hs (pre ++ pk :: post)).1 = (pre.map (fun q => (onPacketRead hs q).1.1), some e) := by
+  induction pre with
+  | nil => simp [readLoop, hrej]
+  | cons q pre ih =>
+    have hq : (onPacketRead hs q).1.2 = none := hpre q (by simp)
+    have := ih (fun q' hq' => hpre q' (by simp [hq']))
+    simp [readLoop, hq, this]
+
+/-- … and when the read hooks reject nothing every packet is handled -/
+theorem C19_read_all_handled (hs : List Hook) (pkts : List Pkt) (hall : ∀ q ∈ pkts, (onPacketRead hs q).1.2 = none) :
+    (readLoop hs pkts).1 = (pkts.map (fun q => (onPacketRead hs q).1.1), none) := by
+  induction pkts with
+  | nil => simp [readLoop]
+  | cons q pkts ih =>
+    have hq : (onPacketRead hs q).1.2 = none := hall q (by simp)
+    have := ih (fun q' hq' => hall q' (by simp [hq']))
+    simp [readLoop, hq, this]
+
+/-! ## Any-of: authentication and access control -/
+
+/-- **a client is admitted iff SOME providing hook allows it**; with no providing hook: refused; hooks after the
+    first one that allows are not consulted -/
+theorem C19_any_auth (hs : List Hook) (pk : Pkt) :
+    ((onConnectAuthenticate hs pk).1 = true ↔
+      ∃ h ∈ hs, h.provides .onConnectAuthenticate = true ∧ h.onConnectAuthenticate pk = true) ∧
+    ((∀ h ∈ hs, h.provides .onConnectAuthenticate = false) → (onConnectAuthenticate hs pk).1 = false) ∧
+    (∀ c ∈ (onConnectAuthenticate hs pk).2.dropLast, c.output = .bool false) := by
+  have hiff := any_ret .onConnectAuthenticate (.pkt pk) (·.onConnectAuthenticate pk) hs 0
+  refine ⟨hiff, fun hno => ?_, ?_⟩
+  · cases hr : (onConnectAuthenticate hs pk).1 with
+    | false => rfl
+    | true =>
+      obtain ⟨h, hm, hp, _⟩ := hiff.1 hr
+      rw [hno h hm] at hp; cases hp
+  · intro c hc
+    have := loop_stop_last .onConnectAuthenticate (anyBody (.pkt pk) (·.onConnectAuthenticate pk)) (fun _ => false)
+      Out.isYes
+      (by intro h s; cases hb : h.onConnectAuthenticate pk <;> simp [anyBody, Out.isYes, hb]) hs 0 () c hc
+    obtain ⟨_, _, h, s', _, _, _, ho⟩ := loop_call_sound _ _ _ hs 0 () c (List.dropLast_subset _ hc)
+    simp only [anyBody] at ho
+    rw [ho] at this ⊢
+    cases hb : h.onConnectAuthenticate pk <;> simp_all [Out.isYes]
+
+/-- **an access is permitted iff SOME providing hook allows it**; with no providing hook: refused -/
+theorem C19_any_acl (hs : List Hook) (topic : Bytes) (write : Bool) :
+    ((onACLCheck hs topic write).1 = true ↔
+      ∃ h ∈ hs, h.provides .onACLCheck = true ∧ h.onACLCheck topic write = true) ∧
+    ((∀ h ∈ hs, h.provides .onACLCheck = false) → (onACLCheck hs topic write).1 = false) ∧
+    (∀ c ∈ (onACLCheck hs topic write).2.dropLast, c.output = .bool false) := by
+  have hiff := any_ret .onACLCheck (.acl topic write) (·.onACLCheck topic write) hs 0
+  refine ⟨hiff, fun hno => ?_, ?_⟩
+  · cases hr : (onACLCheck hs topic write).1 with
+    | false => rfl
+    | true =>
+      obtain ⟨h, hm, hp, _⟩ := hiff.1 hr
+      rw [hno h hm] at hp; cases hp
+  · intro c hc
+    have := loop_stop_last .onACLCheck (anyBody (.acl topic write) (·.onACLCheck topic write)) (fun _ => false)
+      Out.isYes
+      (by intro h s; cases hb : h.onACLCheck topic write <;> simp [anyBody, Out.isYes, hb]) hs 0 () c hc
+    obtain ⟨_, _, h, s', _, _, _, ho⟩ := loop_call_sound _ _ _ hs 0 () c (List.dropLast_subset _ hc)
+    simp only [anyBody] at ho
+    rw [ho] at this ⊢
+    cases hb : h.onACLCheck topic write <;> simp_all [Out.isYes]
+
+/-! ## First error -/
+
+/-- **`OnConnect`**: the result is the first error, in registration order, that a providing hook returns (nil if
+    none does); the hook that returned it is the last one consulted — later hooks are NOT consulted; without an
+    error every providing hook is consulted -/
+theorem C19_first_error (hs : List Hook) (pk : Pkt) :
+    (onConnect hs pk).1 = (hs.filter (·.provides .onConnect)).findSome? (·.onConnect pk) ∧
+    (∀ c ∈ (onConnect hs pk).2.dropLast, c.output = .err none) ∧
+    (∀ e, (onConnect hs pk).1 = some e → ∃ c, (onConnect hs pk).2.getLast? = some c ∧ c.output = .err (some e)) ∧
+    ((onConnect hs pk).1 = none → idxs (onConnect hs pk).2 = providers .onConnect hs) := by
+  have hiff : ∀ (h : Hook) (s : Unit), (connectBody pk h s).output.error.isSome = true ↔ ∃ r, (connectBody pk h s).step = .stop r := by
+    intro h s; simp only [connectBody, Out.error]; cases h.onConnect pk <;> simp
+  refine ⟨connect_ret pk hs 0, ?_, ?_, ?_⟩
+  · intro c hc
+    have := loop_stop_last .onConnect (connectBody pk) (fun _ => none) (fun o => o.error.isSome) hiff hs 0 () c hc
+    obtain ⟨_, _, h, s', _, _, _, ho⟩ := loop_call_sound _ _ _ hs 0 () c (List.dropLast_subset _ hc)
+    simp only [connectBody] at ho
+    rw [ho] at this ⊢
+    cases hb : h.onConnect pk <;> simp_all [Out.error]
+  · intro e he
+    rcases loop_cases .onConnect (connectBody pk) (fun _ => none) (fun o => o.error.isSome) hiff (fun _ => .pkt pk)
+        (fun a _ => a) (fun _ _ => rfl) (fun _ _ _ _ => rfl) hs 0 () with ⟨_, _, z, hz1, _⟩ | ⟨c, h, s', hlast, _, _, _, _, _, hco, hstep, _⟩
+    · simp only [onConnect] at he; rw [hz1] at he; cases he
+    · refine ⟨c, hlast, ?_⟩
+      simp only [connectBody] at hstep hco
+      simp only [onConnect] at he
+      cases hb : h.onConnect pk with
+      | none => rw [hb] at hstep; cases hstep
+      | some e' =>
+        rw [hb] at hstep hco
+        simp at hstep
+        rw [← hstep] at he; cases he
+        exact hco
+  · intro hnone
+    rcases loop_cases .onConnect (connectBody pk) (fun _ => none) (fun o => o.error.isSome) hiff (fun _ => .pkt pk)
+        (fun a _ => a) (fun _ _ => rfl) (fun _ _ _ _ => rfl) hs 0 () with ⟨_, hidx, _⟩ | ⟨c, h, s', _, _, _, _, _, _, _, hstep, _⟩
+    · exact hidx
+    · simp only [connectBody] at hstep
+      simp only [onConnect] at hnone
+      cases hb : h.onConnect pk with
+      | none => rw [hb] at hstep; cases hstep
+      | some e' =>
+        rw [hb] at hstep; simp at hstep
+        rw [← hstep] at hnone; cases hnone
+
+/-! ## `OnPublish` and `OnAuthPacket`: the verdict -/
+
+/-- **`Hooks.OnPublish`, the two outcomes.**  (A) no consulted hook returned an error: every providing hook was
+    consulted and the result is `(p, nil)`, `p` what the last of them returned.  (B) the LAST consulted hook returned
+    an error `e` — `ErrRejectPacket`, `CodeSuccessIgnore`, either of them wrapped, or any other error, all alike —:
+    the result is `(pk, e)` with the ORIGINAL packet (what earlier hooks changed is discarded); the hooks after it
+    are not consulted; no earlier consulted hook had returned an error. -/
+theorem C19_publish_verdict (hs : List Hook) (pk : Pkt) :
+    ((∀ c ∈ (onPublish hs pk).2, c.output.error = none) ∧
+      idxs (onPublish hs pk).2 = providers .onPublish hs ∧
+      ∃ p, (onPublish hs pk).1 = (p, none) ∧ Arg.pkt p = chainEnd nextLiteral (.pkt pk) (onPublish hs pk).2)
+    ∨ (∃ c e, (onPublish hs pk).2.getLast? = some c ∧ c.output.error = some e ∧
+        (onPublish hs pk).1 = (pk, some e) ∧ ∀ c' ∈ (onPublish hs pk).2.dropLast, c'.output.error = none) := by
+  have hiff : ∀ (h : Hook) (s : Pkt), (publishBody pk h s).output.error.isSome = true ↔ ∃ r, (publishBody pk h s).step = .stop r := by
+    intro h s
+    simp only [publishBody, Out.error]
+    cases he : (h.onPublish s).2 with
+    | none => simp
+    | some e => cases e.isReject <;> cases e.isIgnore <;> simp
+  have h2 : ∀ (h : Hook) (s s' : Pkt), (publishBody pk h s).step = .next s' →
+      Arg.pkt s' = nextLiteral (Arg.pkt s) (publishBody pk h s).output := by
+    intro h s s' hst
+    simp only [publishBody] at hst
+    split at hst
+    · split at hst
+      · cases hst
+      · split at hst <;> cases hst
+    · cases hst; rfl
+  rcases loop_cases .onPublish (publishBody pk) (fun pkx => (pkx, none)) (fun o => o.error.isSome) hiff Arg.pkt nextLiteral
+      (fun _ _ => rfl) h2 hs 0 pk with ⟨hall, hidx, z, hz1, hz2⟩ | ⟨c, h, s', hlast, hstop, _, _, _, _, hco, hstep, hpre⟩
+  · left
+    refine ⟨fun c hc => ?_, hidx, z, hz1, hz2⟩
+    have := hall c hc
+    cases hb : c.output.error <;> simp_all
+  · right
+    simp only [publishBody] at hstep hco
+    cases he : (h.onPublish s').2 with
+    | none => rw [he] at hstep; cases hstep
+    | some e =>
+      rw [he] at hstep hco
+      have hret : (onPublish hs pk).1 = (pk, some e) := by
+        simp only [onPublish]
+        cases hr : e.isReject <;> cases hi : e.isIgnore <;> simp [hr, hi] at hstep <;> exact hstep.symm
+      refine ⟨c, e, hlast, by rw [hco]; rfl, hret, fun c' hc' => ?_⟩
+      have := hpre c' hc'
+      cases hb : c'.output.error <;> simp_all
+
+/-- the dispatcher reports an error iff some consulted `OnPublish` hook returned one, and then returns the
+    packet it was given -/
+theorem C19_publish_blocked_iff (hs : List Hook) (pk : Pkt) :
+    ((onPublish hs pk).1.2 ≠ none ↔ ∃ c ∈ (onPublish hs pk).2, c.output.error ≠ none) ∧
+    (∀ e, (onPublish hs pk).1.2 = some e → (onPublish hs pk).1.1 = pk) := by
+  rcases C19_publish_verdict hs pk with ⟨hall, _, p, hp, _⟩ | ⟨c, e, hlast, hce, hret, _⟩
+  · refine ⟨?_, fun e he => ?_⟩
+    · rw [hp]; simp
+      intro c hc; exact hall c hc
+    · rw [hp] at he; cases he
+  · refine ⟨?_, fun e' _ => by rw [hret]⟩
+    rw [hret]; simp
+    exact ⟨c, List.mem_of_getLast? hlast, by rw [hce]; simp⟩
+
+/-- hook 0 modifies the packet and hook 1 rejects / ignores / fails (bare or wrapped): the dispatcher returns the
+    ORIGINAL packet with hook 1's error; hook 1 had received hook 0's output -/
+example : ∀ e ∈ [Err.reject, .ignore, .wrapReject 66, .wrapIgnore 66, .other 66],
+    onPublish [markHook 65 none, markHook 66 (some e)] { kind := 3, payload := [1] } =
+      (({ kind := 3, payload := [1] }, some e),
+       [⟨0, .onPublish, .pkt { kind := 3, payload := [1] }, .pktErr { kind := 3, payload := [1, 65] } none⟩,
+        ⟨1, .onPublish, .pkt { kind := 3, payload := [1, 65] }, .pktErr { kind := 3, payload := [1, 65, 66] } (some e)⟩]) := by
+  decide
+
+/-- an earlier hook fails: the later hook is not run, the original packet comes back with the error -/
+example : onPublish [markHook 65 (some (.other 65)), markHook 66 none] { kind := 3, payload := [1] } =
+      (({ kind := 3, payload := [1] }, some (.other 65)),
+       [⟨0, .onPublish, .pkt { kind := 3, payload := [1] }, .pktErr { kind := 3, payload := [1, 65] } (some (.other 65))⟩]) := by
+  decide
+
+/-- **`OnAuthPacket`**: the same two outcomes as `OnPublish` (first error wins, original packet returned) -/
+theorem C19_first_error_auth (hs : List Hook) (pk : Pkt) :
+    ((∀ c ∈ (onAuthPacket hs pk).2, c.output.error = none) ∧
+      idxs (onAuthPacket hs pk).2 = providers .onAuthPacket hs ∧
+      ∃ p, (onAuthPacket hs pk).1 = (p, none) ∧ Arg.pkt p = chainEnd nextLiteral (.pkt pk) (onAuthPacket hs pk).2)
+    ∨ (∃ c e, (onAuthPacket hs pk).2.getLast? = some c ∧ c.output.error = some e ∧
+        (onAuthPacket hs pk).1 = (pk, some e) ∧ ∀ c' ∈ (onAuthPacket hs pk).2.dropLast, c'.output.error = none) := by
+  have hiff : ∀ (h : Hook) (s : Pkt), (authBody pk h s).output.error.isSome = true ↔ ∃ r, (authBody pk h s).step = .stop r := by
+    intro h s
+    simp only [authBody, Out.error]
+    cases he : (h.onAuthPacket s).2 <;> simp
+  have h2 : ∀ (h : Hook) (s s' : Pkt), (authBody pk h s).step = .next s' →
+      Arg.pkt s' = nextLiteral (Arg.pkt s) (authBody pk h s).output := by
+    intro h s s' hst
+    simp only [authBody] at hst
+    split at hst
+    · cases hst
+    · cases hst; rfl
+  rcases loop_cases .onAuthPacket (authBody pk) (fun pkx => (pkx, none)) (fun o => o.error.isSome) hiff Arg.pkt nextLiteral
+      (fun _ _ => rfl) h2 hs 0 pk with ⟨hall, hidx, z, hz1, hz2⟩ | ⟨c, h, s', hlast, hstop, _, _, _, _, hco, hstep, hpre⟩
+  · left
+    refine ⟨fun c hc => ?_, hidx, z, hz1, hz2⟩
+    have := hall c hc
+    cases hb : c.output.error <;> simp_all
+  · right
+    simp only [authBody] at hstep hco
+    cases he : (h.onAuthPacket s').2 with
+    | none => rw [he] at hstep; cases hstep
+    | some e =>
+      rw [he] at hstep hco
+      simp at hstep
+      refine ⟨c, e, hlast, by rw [hco]; rfl, hstep.symm, fun c' hc' => ?_⟩
+      have := hpre c' hc'
+      cases hb : c'.output.error <;> simp_all
+
+/-! ## Stored data -/
+
+/-- **`Stored*`: the first providing hook (registration order) that answers with an error or with something
+    non-empty wins** — its `(v, err)` is returned as it is (an error comes with that hook's `v`); providing hooks
+    that answer `(empty, nil)` are passed over; if every one does, the zero values. Nothing is merged. -/
+theorem C19_stored_first (hs : List Hook) :
+    (storedClients hs).1 = (((hs.filter (·.provides .storedClients)).map (·.storedClients)).find? storedDecides).getD ([], none) ∧
+    (storedSubscriptions hs).1 = (((hs.filter (·.provides .storedSubscriptions)).map (·.storedSubscriptions)).find? storedDecides).getD ([], none) ∧
+    (storedInflightMessages hs).1 = (((hs.filter (·.provides .storedInflightMessages)).map (·.storedInflightMessages)).find? storedDecides).getD ([], none) ∧
+    (storedRetainedMessages hs).1 = (((hs.filter (·.provides .storedRetainedMessages)).map (·.storedRetainedMessages)).find? storedDecides).getD ([], none) ∧
+    (storedSysInfo hs).1 = (((hs.filter (·.provides .storedSysInfo)).map (·.storedSysInfo)).find? storedDecides).getD ([], none) :=
+  ⟨stored_ret _ _ hs 0, stored_ret _ _ hs 0, stored_ret _ _ hs 0, stored_ret _ _ hs 0, stored_ret _ _ hs 0⟩
+
+/-- a second store behind a first one that has data is never asked -/
+example : (storedClients [{ provides := fun _ => true, storedClients := ([1], none) },
+                          { provides := fun _ => true, storedClients := ([2, 3], none) }]) =
+    (([1], none), [⟨0, .storedClients, .unit, .stored [1] none⟩]) := by decide
+
+end Mochi.Hooks
